@@ -5,6 +5,7 @@ import (
 	"go/token"
 	"go/types"
 	"sort"
+	"strings"
 
 	"golang.org/x/tools/go/ssa"
 )
@@ -403,4 +404,110 @@ func boundIsWholeLength(st *ssa.Store, k ssa.Value, pending *types.Var) bool {
 		}
 	}
 	return false
+}
+
+// ---- the hand-off cannot refuse -------------------------------------------------------------------------------
+//
+// Commander.appendLog advances the chain head (and the transaction id) and then hands the log to Batcher.Append,
+// all under one mutex (R05a–c). That is only sound while the hand-off cannot refuse: if Append may return without
+// having queued the object (context already cancelled, queue "full", …) the head has moved onto a log that will
+// never be persisted — the next log is persisted with a gap in the ids and a hash over a phantom entry, and the
+// request that was refused has left a trace. Rule: every returning path of Batcher.Append (helpers of the package
+// stepped through) has appended its object to the pending list.
+func ruleAppendAlwaysEnqueues(c *Ctx, rule string) {
+	app := c.MustFn(rule, pkgBatching, "Batcher.Append")
+	pending := c.MustFieldLike(rule, pkgBatching, "Batcher", "pending", func(t types.Type) bool { _, ok := t.Underlying().(*types.Slice); return ok })
+	if app == nil || pending == nil {
+		return
+	}
+	bodies := []*ssa.Function{app}
+	if len(app.Blocks) == 0 {
+		bodies = c.AllInstancesOf(app)
+	}
+	for _, fn := range bodies {
+		if len(fn.Blocks) == 0 {
+			continue
+		}
+		key := "Batcher.Append:enqueues-on-every-path"
+		obl := newOblSet(c, rule)
+		obl.expect(key, fn.Pos(), "every returning path of Append has put the object at the tail of pending")
+		pr := &PathRule{
+			Inline: func(call ssa.CallInstruction) []*ssa.Function {
+				if g := staticCallee(call); g != nil && fnPkgPath(origin(g)) == pkgBatching && len(g.Blocks) > 0 {
+					return []*ssa.Function{g}
+				}
+				return nil
+			},
+			MaxDepth: 3,
+			Step: func(pc *PathCtx, s uint64, ins ssa.Instruction) uint64 {
+				if v, _, ok := storeToField(ins, pending); ok {
+					if call, ok := v.(*ssa.Call); ok {
+						if bi, ok := call.Call.Value.(*ssa.Builtin); ok && bi.Name() == "append" {
+							return s | 1
+						}
+					}
+				}
+				return s
+			},
+			Exit: func(pc *PathCtx, s uint64, ins ssa.Instruction) {
+				if pc.parent != nil {
+					return
+				}
+				if _, isRet := ins.(*ssa.Return); isRet && s&1 == 0 {
+					obl.violate(key, ins.Pos(), "Batcher.Append returns on a path that queued nothing: the commander has already moved the chain head (and the transaction id) onto that log, so the next persisted log skips an id and chains on an entry that is never persisted, and the refused request has left a trace", pc.Trail())
+				}
+			},
+		}
+		c.RunPaths(fn, 0, pr)
+		obl.flush()
+		break
+	}
+}
+
+// ---- R05j: one persister ---------------------------------------------------------------------------------------
+//
+// Batches reach the store in chain order because exactly one worker takes them from the jobs channel, one after the
+// other (R05d: the commander's batcher has one worker). That also needs the runner function (InsertLogs) to be
+// invoked from nowhere else: a second call site — a "flush what is still queued" loop in the stop branch of
+// Runner.Run, a synchronous fast path — is a second persister that can overtake the worker, so that ids k+1.. are
+// stored before (or without) id k. Rule: in package job the field Runner.runner is called at exactly one site.
+func ruleR05j(c *Ctx) {
+	const rule = "R05j"
+	runnerField := c.MustFieldLike(rule, pkgJob, "Runner", "runner", func(t types.Type) bool {
+		sig, ok := t.Underlying().(*types.Signature)
+		return ok && sig.Params().Len() == 2 && sig.Results().Len() == 1
+	})
+	if runnerField == nil {
+		return
+	}
+	type site struct {
+		fn   *ssa.Function
+		call ssa.CallInstruction
+	}
+	var sites []site
+	seenPos := map[token.Pos]bool{}
+	for _, fn := range c.FuncsIn(pkgJob) {
+		if fn.Synthetic != "" && !strings.HasPrefix(fn.Synthetic, "instance of") {
+			continue
+		}
+		allCalls(fn, func(ci ssa.CallInstruction) {
+			if _, ok := fieldRead(ci.Common().Value, runnerField); ok && !ci.Common().IsInvoke() {
+				if !seenPos[ci.Pos()] { // the generic body and its instances are one source site
+					seenPos[ci.Pos()] = true
+					sites = append(sites, site{fn, ci})
+				}
+			}
+		})
+	}
+	sort.Slice(sites, func(i, j int) bool { return sites[i].call.Pos() < sites[j].call.Pos() })
+	switch {
+	case len(sites) == 0:
+		c.undecided(rule, "floor:runner-call", token.NoPos, "no call of Runner.runner found in package job")
+	case len(sites) == 1:
+		c.ok(rule, "job.Runner:runner-called-at-one-site", sites[0].call.Pos(), "the persistence function is invoked by the worker loop only")
+	default:
+		for _, s := range sites[1:] {
+			c.bad(rule, "job.Runner:runner-called-at-one-site", s.call.Pos(), fmt.Sprintf("Runner.runner (InsertLogs) is also invoked in %s, besides the worker loop at %s: two persisters run concurrently, a later batch can reach the store before (or without) the one it is chained on", fnName(origin(s.fn)), c.pos(sites[0].call.Pos())))
+		}
+	}
 }
